@@ -184,9 +184,29 @@ pub fn rand_valid(r: &mut Rng, post_connack: bool) -> SPacket {
     }
 }
 
-const MUTATORS: [&str; 13] = [
-    "varint-overlong", "type-edit", "flag-edit", "qos3", "length-plus", "length-minus", "truncate", "trailing-garbage", "utf8-corrupt", "oversize", "bit-flip", "splice", "prop-length-edit",
+const MUTATORS: [&str; 15] = [
+    "varint-overlong", "type-edit", "flag-edit", "qos3", "length-plus", "length-minus", "truncate", "trailing-garbage", "utf8-corrupt", "oversize", "bit-flip", "splice", "prop-length-edit", "prop-surplus", "prop-surplus",
 ];
+
+/// Index of the property-length byte of a server packet whose lengths are all single-byte varints.
+fn prop_block(b: &[u8]) -> Option<usize> {
+    if b.len() < 2 || b[1] & 0x80 != 0 || b[1] as usize != b.len() - 2 {
+        return None;
+    }
+    let i = match b[0] >> 4 {
+        2 => 4,
+        3 => {
+            let tl = u16::from_be_bytes([*b.get(2)?, *b.get(3)?]) as usize;
+            4 + tl + if b[0] & 0x06 != 0 { 2 } else { 0 }
+        }
+        4..=7 if b[1] >= 4 => 5,
+        9 | 11 => 4,
+        14 if b[1] >= 2 => 3,
+        _ => return None,
+    };
+    let pl = *b.get(i)?;
+    (pl & 0x80 == 0 && i + 1 + pl as usize <= b.len()).then_some(i)
+}
 
 /// Apply one mutation operator to an encoded packet.
 pub fn mutate(r: &mut Rng, bytes: &[u8], op: &str) -> Vec<u8> {
@@ -279,6 +299,30 @@ pub fn mutate(r: &mut Rng, bytes: &[u8], op: &str) -> Vec<u8> {
                 out.extend_from_slice(&b[hdr..]);
                 out.extend(std::iter::repeat_n(0x61u8, extra));
                 return out;
+            }
+            b
+        }
+        "prop-surplus" => {
+            // lengths stay consistent, but the property block ends in a lone identifier or in an
+            // identifier with only part of its value
+            if let Some(i) = prop_block(&b) {
+                let tail: &[u8] = match r.below(6) {
+                    0 => &[0x26],
+                    1 => &[0x01],
+                    2 => &[0x21],
+                    3 => &[0x21, 0x00],
+                    4 => &[0x1F, 0x00],
+                    _ => &[0x02, 0x00, 0x00, 0x00],
+                };
+                let pl = b[i] as usize;
+                if pl + tail.len() < 0x80 && b[1] as usize + tail.len() < 0x80 {
+                    let at = i + 1 + pl;
+                    for (k, t) in tail.iter().enumerate() {
+                        b.insert(at + k, *t);
+                    }
+                    b[i] += tail.len() as u8;
+                    b[1] += tail.len() as u8;
+                }
             }
             b
         }
